@@ -154,7 +154,7 @@ def run_case(case, rng):
         subgoals = rng.sample(S, rng.randint(1, max(1, len(S) // 2)))
         inits = [s for s in S if s not in subgoals] or [S[0]]
         inits = rng.sample(inits, rng.randint(1, len(inits)))
-        clip = rng.choice([float("inf"), -1.0, 0.0, 0.5])
+        clip = rng.choice([float("inf"), -1.0, 0.0, 0.5, float("-inf")])
         inc = rng.random() < 0.5
         from mon import defaults as Dflt
         okw, _om = Dflt.rely_on_defaults(case, rng, "PlanToSubgoalOption", dict(include_mdp_absorbing_states=inc, name="sg",
@@ -167,7 +167,23 @@ def run_case(case, rng):
         if st is not case.FAIL:
             case.check(st.discount_rate == gamma, "subtask:discount_rate-differs",
                        f"sub_task.discount_rate={st.discount_rate!r} base={gamma!r}", component="discount_rate", **f3)
-            pr = case.call("planning_result", lambda: opt.planning_result, facts=f3)
+            # the sub-task's reward function itself: base reward into a sub-goal, min(base, cap) elsewhere
+            def rcmp():
+                bad_ = []
+                for s_ in S:
+                    for a_ in sp.acts[s_]:
+                        for t_, q_ in sp.P[(s_, a_)]:
+                            if q_ > 0:
+                                want_ = sp.reward(s_, a_, t_) if t_ in subgoals else min(sp.reward(s_, a_, t_), clip)
+                                got_ = st.reward(s_, a_, t_)
+                                if not (got_ == want_):
+                                    bad_.append((s_, a_, t_, got_, want_))
+                return bad_
+            bad_r = case.call("sub_task.reward", rcmp, facts=f3)
+            if bad_r is not case.FAIL:
+                case.count("components_compared")
+                case.check(not bad_r, "subtask:reward-differs-from-clipped-base-reward", lambda: f"{bad_r[:2]!r} cap={clip!r}", component="reward", **f3)
+            pr = case.call("planning_result", lambda: opt.planning_result, facts=f3) if clip != float("-inf") else case.FAIL
             case.count("subtask_plans")
             if pr is not case.FAIL:
                 import copy
